@@ -7,7 +7,7 @@ import gens
 import impl
 import engine
 import exchange as X
-from docs import to_text, ro_delete, story_append, story_move, ready_to_air
+from docs import to_text, ro_delete, story_append, story_move, ready_to_air, E
 from checks.base import corpus_cases
 
 LEVEL = 'proof'
@@ -40,6 +40,16 @@ def messages(ids, rng, ro_at=0):
         else:
             d = story_move(mid, ['C', 'S' + rest[k - 2].strip()])
         d.find('messageID').text = mid
+        if k % 2 == 0:
+            # the envelope's fields after the message element, and an element named messageID (another number) inside the
+            # body: the message is still message `mid`
+            body = d[3]
+            body.append(E('mosExternalMetadata', E('mosSchema', text='http://quoted'), E('mosPayload', E('quoted', E('messageID', text='500'), E('mosID', text='other')))))
+            head = [c for c in d if c.tag in ('mosID', 'ncsID', 'messageID')]
+            for c in head:
+                d.remove(c)
+            for c in head:
+                d.append(c)
         docs[mid] = d
     return [to_text(docs[i]) for i in ids]
 
